@@ -160,7 +160,11 @@ func cmdCheck(args []string) {
 		fmt.Fprintln(os.Stderr, err)
 		os.Exit(2)
 	}
-	evPath := filepath.Join(*verifDir, "evidence", *prop+".json")
+	evDir := filepath.Join(*verifDir, "evidence")
+	if d := os.Getenv("VERIF_EVIDENCE_DIR"); d != "" {
+		evDir = d // development runs against scratch trees must not overwrite the registered evidence
+	}
+	evPath := filepath.Join(evDir, *prop+".json")
 	os.MkdirAll(filepath.Dir(evPath), 0o755)
 
 	harnessDir := filepath.Join(*verifDir, "harness")
@@ -207,9 +211,15 @@ func cmdCheck(args []string) {
 			}
 			tl := rs.TimeQ
 			cfg.MaxPaths = rs.MaxPathsQ
+			if tl == 0 {
+				tl = 75 // default wall-clock budget of one quick run; exceeding it is reported as truncated (inconclusive)
+			}
 			if *tier == "thorough" {
 				tl = rs.TimeT
 				cfg.MaxPaths = rs.MaxPathsT
+				if tl == 0 {
+					tl = 1200
+				}
 			}
 			if tl > 0 {
 				cfg.Deadline = time.Now().Add(time.Duration(tl) * time.Second)
@@ -302,6 +312,9 @@ func cmdCheck(args []string) {
 	replayOut := map[string]*ReplayResult{}
 	replayErr := ""
 	replayDirBase := filepath.Join(*verifDir, "replays")
+	if d := os.Getenv("VERIF_EVIDENCE_DIR"); d != "" {
+		replayDirBase = filepath.Join(d, "replays")
+	}
 	if !*noReplay {
 		for sub, cs := range cases {
 			keep := ""
@@ -351,7 +364,7 @@ func cmdCheck(args []string) {
 		}
 	}
 	// judge witnesses (translator validation)
-	witOK, witBad, witMissing := 0, 0, 0
+	witOK, witBad, witMissing, witNondet := 0, 0, 0, 0
 	var witDiffs []string
 	badHarness := map[string]bool{}
 	for name, wc := range witCases {
@@ -363,6 +376,8 @@ func cmdCheck(args []string) {
 		same := len(r.Failures) == 0 && !r.Hang && (r.Panic == "") && !r.Short && equalStrings(r.Observed, wc.w.Observed)
 		if same {
 			witOK++
+		} else if wc.w.NDChoices > 0 {
+			witNondet++ // the path depends on select/scheduler choices the native run is free to make differently
 		} else {
 			witBad++
 			badHarness[wc.rep.spec.Fn] = true
@@ -443,6 +458,9 @@ func cmdCheck(args []string) {
 			inconcl = append(inconcl, rep.spec.Fn+": vacuous: "+id)
 			totalIncon++
 		}
+	}
+	if witNondet > 0 {
+		fmt.Printf("note: %d sampled witnesses lie on paths with select/scheduler choices and took a different (legitimate) course natively; not counted\n", witNondet)
 	}
 	if witMissing > 0 {
 		fmt.Printf("note: %d sampled witnesses were not replayed (no result from the native run)\n", witMissing)
